@@ -86,3 +86,28 @@ Theorem c07_disabled_history_iff_partial : forall ops id, id <> 0 -> no_redundan
   (mem id (d_slots (fst (run_ops dinit ops))) = true <-> cur_disabled false id (combine ops (snd (run_ops dinit ops))) false = true).
 Proof. exact disabled_history_iff_partial. Qed.
 Print Assumptions c07_disabled_history_iff_partial.
+
+(* (D)TLS <= 1.2 key-exchange curve (the TLS 1.3 twin is c07_group_sigalg_in_both).
+   Server: the ECDHE curve is enabled for this session (ecFlags), compiled in and - when the ClientHello carries
+   supported_groups - listed there; a list with nothing in common is refused with handshake_failure.
+   Client (fix C07-ske-curve-offered): a ServerKeyExchange is accepted only on a curve the ClientHello listed. *)
+Theorem c07_group_legacy_in_both :
+  (forall cfg groups c, (let '(fl, cid) := ec_after_hello cfg groups in server_ecdhe_curve fl cid) = Ok c -> curve_ok cfg groups c) /\
+  (forall cfg l, (forall g, In g l -> curve_enabled g cfg = false) ->
+     (let '(fl, cid) := ec_after_hello cfg (Some l) in server_ecdhe_curve fl cid) = Err c_SSL_ALERT_HANDSHAKE_FAILURE) /\
+  (forall q k, client_ske q k = Ok tt -> client_offered_group q (k_curve k) = true).
+Proof. split; [exact server_curve_ok | split; [exact server_curve_disjoint_refused | intros q k H; exact (proj1 (client_ske_ok q k H))]]. Qed.
+Print Assumptions c07_group_legacy_in_both.
+
+(* (D)TLS 1.2 SignatureAndHashAlgorithm of ServerKeyExchange / CertificateVerify.
+   Signer: chooseSigAlgInt returns an algorithm of the peer's list or, as last resort, the one its own certificate is signed
+   with.  Verifiers: the client accepts a ServerKeyExchange only with an algorithm of the signature_algorithms it sent; the
+   server accepts a CertificateVerify only with an algorithm class that the client listed and that is on the server's list. *)
+Theorem c07_sigalg_legacy_in_both :
+  (forall cert keyalg keysize mask a, choose_sigalg_int cert keyalg keysize mask = Some a -> peer_supports (Some a) mask = true \/ a = cert) /\
+  (forall q k, client_ske q k = Ok tt ->
+     ngtd (q_active q) (N.lor c_v_tls_1_2 (N.lor c_v_dtls_1_2 c_v_tls_1_3_any)) = true -> exists a, k_alg k = Some a /\ In a (q_sigalgs q)) /\
+  (forall supported l alg, server_cv_alg (fst (parse_sigalgs supported l 0 0)) alg = Ok tt ->
+     exists a, In a l /\ In a supported /\ N.land (hash_sig_mask a) (hash_sig_mask alg) <> 0).
+Proof. split; [exact choose_sigalg_sound | split; [intros q k H; exact (proj2 (proj2 (client_ske_ok q k H))) | exact server_cv_alg_ok]]. Qed.
+Print Assumptions c07_sigalg_legacy_in_both.
